@@ -53,7 +53,7 @@ FieldTy(f, of) ==
   IF Has(f.attrs, "inline") THEN (IF nullable THEN ti.inl ELSE ti.oinl)
   ELSE (IF nullable THEN ti.name ELSE ti.oname)
 
-QName == "q\"u\\o"          \* the rename value of the attribute token rename_q: q"u\o
+QName == "q\"u\\o\nn"       \* the rename value of the attribute token rename_q: q"u\o, a line break, n
 FieldKey(i, f, rule) == IF Has(f.attrs, "rename") THEN "Renamed_field" ELSE IF Has(f.attrs, "rename_q") THEN QName ELSE DCfg.fieldnames[rule][i]
 
 RECURSIVE NamedMembers(_, _, _, _)
